@@ -7,6 +7,7 @@ A == Atom("a")
 B == Atom("b")
 C == Atom("c")
 One == Atom("1")
+D == Atom("2")
 Atoms == {A, B, C}
 AtomsX == {A, One, Atom("'s'"), Atom("NULL"), Atom("t.a")}
 
@@ -36,13 +37,20 @@ R3 == Rep1(R2, {A}) \cup Rep1({A}, R2) \cup {Bin(op, l, r) : op \in RepOps, l \i
 R4F(zz) == Rep1(R3, {B}) \cup Rep1({B}, R3)        \* four operator nodes over the representatives (thorough); parametrised: not evaluated at start-up
 NegLit == {Bin(op, C, Neg(One)) : op \in BinOps} \cup {Bin(op, Neg(One), C) : op \in BinOps} \cup {IdxT(A, Neg(One)), InT(FALSE, A, <<Neg(One)>>), CallT("abs", <<Neg(One)>>)}
 \* three operators in the shapes "low, tighter, low" and "tighter after low": a - b * c - d, a - b::int - c, a * b - c / d ...
-D == Atom("2")
 ShapeOps == {"OR", "AND", "=", "+", "-", "*", "/"}
 Tight(x, y) == {Bin(op, x, y) : op \in {"*", "/", "+", "-", "="}} \cup {CastT(x, "int"), IdxT(x, y), Neg(x)}
 Shapes3 == {Bin(o3, Bin(o1, A, X), D) : o1 \in ShapeOps, o3 \in ShapeOps, X \in Tight(B, C)}
            \cup {Bin(o1, A, Bin(o3, X, D)) : o1 \in ShapeOps, o3 \in ShapeOps, X \in Tight(B, C)}
            \cup {Bin(o3, Bin(o1, X, A), D) : o1 \in ShapeOps, o3 \in ShapeOps, X \in Tight(B, C)}
-Trees == Shapes3 \cup T1 \cup T1x \cup T2 \cup NegLit \cup (IF Depth >= 3 THEN R3 ELSE {}) \cup (IF Depth >= 4 THEN R4F(0) ELSE {})
+\* wide expressions: one construct 66 / 130 times in one statement, combined by one operator into a balanced tree (nesting depth 8, far inside the depth bound):
+\* IN lists of one and two elements, calls, subscripts, casts, CASE, parenthesised sums under a product -- the number of bracketed constructs in a statement is
+\* not bounded by anything, only their nesting is
+RECURSIVE Balanced(_, _, _)
+Balanced(op, e, n) == IF n = 1 THEN e ELSE Bin(op, Balanced(op, e, n \div 2), Balanced(op, e, n - (n \div 2)))
+WideLeaves == {InT(FALSE, A, <<One, D>>), InT(TRUE, A, <<One>>), CallT("least", <<A, B>>), IdxT(A, One), CastT(A, "int"), CaseT(A, B, One), Neg(A), Bin("+", A, B), Bin("OR", A, B)}
+WideTrees == {Balanced(op, e, n) : op \in {"AND", "*"}, e \in WideLeaves, n \in {66, 130}}
+             \cup {Bin("AND", Balanced("AND", InT(FALSE, A, <<One, D>>), n), Bin("OR", A, B)) : n \in {64, 65, 70}}        \* ... and a parenthesised operand after them
+Trees == Shapes3 \cup T1 \cup T1x \cup T2 \cup NegLit \cup (IF Depth >= 3 THEN R3 \cup WideTrees ELSE {}) \cup (IF Depth >= 4 THEN R4F(0) ELSE {})
 
 VARIABLE t
 Init == t \in Trees
